@@ -1,8 +1,9 @@
 """C06 (E1, see DESIGN.md section 6)."""
 from vf.common import Check, assert_repo_import, tier, seed
-from vf import gen, e1run
+from vf import gen, e1run, hooks
 
-KINDS = ("nonrandom_changed", "under_constrained", "over_constrained", "returned_values_violate", "spurious_failure", "missed_failure", "other_exception", "out_of_type", "unmapped_var")
+KINDS = ("nonrandom_changed", "under_constrained", "over_constrained", "returned_values_violate", "spurious_failure", "missed_failure", "other_exception", "out_of_type", "unmapped_var",
+         "soft_guard", "soft_missing")
 
 
 def canaries(chk):
@@ -52,7 +53,10 @@ def main():
     canaries(chk)
     specs = gen.c06_programs(t, seed())
     chk.extra["rule"] = "one evaluation = one randomize call decided by Q1/Q2/Q3/Q5; distinct = distinct (program, call position)"
-    e1run.run_specs(chk, specs, KINDS, sig_fn=lambda spec, f: {"cond_class": spec["cond_class"]} if "cond_class" in spec else {})
+    # soft statements inside a referenced dynamic block belong to the call as well: the soft nodes the library tried are compared with
+    # the reference's `guards => soft` (hooks.soft_hook; maximality/priority are C05's subject and not counted here)
+    e1run.run_specs(chk, specs, KINDS, opts={"hooks": [hooks.soft_hook]},
+                    sig_fn=lambda spec, f: {"cond_class": spec["cond_class"]} if "cond_class" in spec else {})
     chk.finish()
 
 
